@@ -23,14 +23,28 @@ structure DelSpec (e : Env) (unlink : Bool) (I : St → Prop) (F : St → St →
       s'.next = s.next ∧ F s s' ∧ (∀ q, isInternal q = false → get? s'.raw q = get? s.raw q) ∧
       (∀ p r u, ObjAt s'.raw p r u ↔ (ObjAt s.raw p r u ∧ p ≠ st.path))
 
+/-- outside `/metador_container` nodes only disappear, none is created or modified -/
+def Mono (s s' : St) : Prop :=
+  ∀ q, q.head? ≠ some .toc → get? s'.raw q = none ∨ get? s'.raw q = get? s.raw q
+
+theorem Mono.refl (s : St) : Mono s s := fun _ _ => Or.inr rfl
+
+theorem Mono.trans {a b c : St} (h1 : Mono a b) (h2 : Mono b c) : Mono a c := by
+  intro q hq
+  rcases h2 q hq with h | h
+  · exact Or.inl h
+  · rcases h1 q hq with h' | h'
+    · exact Or.inl (h.trans h')
+    · exact Or.inr (h.trans h')
+
 /-- `_del_raw(name, _unlink=True)` on a state satisfying the invariant -/
-theorem delSpec_inv {e : Env} (he : WFEnv e) : DelSpec e true (Inv e) (fun _ _ => True) where
+theorem delSpec_inv {e : Env} (he : WFEnv e) : DelSpec e true (Inv e) Mono where
   tree := fun _ hi => hi.treeOK
-  refl := fun _ => trivial
-  trans := fun _ _ _ _ _ => trivial
+  refl := Mono.refl
+  trans := fun _ _ _ => Mono.trans
   del := fun s h name st hi hh hst => by
-    obtain ⟨s', h', h1, h2, h3, h4, h5, h6, h7⟩ := delRaw_spec he hi hh hst
-    exact ⟨s', h', h1, h2, h3, h4, h5, trivial, h6, h7⟩
+    obtain ⟨s', h', h1, h2, h3, h4, h5, h6, h7, h8⟩ := delRaw_spec he hi hh hst
+    exact ⟨s', h', h1, h2, h3, h4, h5, h8, h6, h7⟩
 
 section generic
 variable {e : Env} {unlink : Bool} {I : St → Prop} {F : St → St → Prop}
@@ -429,5 +443,63 @@ theorem opDelete_inv {e : Env} (he : WFEnv e) {s : St} (hi : Inv e s) (p : Path)
       | ok t' =>
         exact rawDel_user_inv hi1 hint (by rw [nodeKind_congr (huser1 _ hint)]; exact hk)
           (fun pp r u ho => (hno1 pp r u ho).2) h
+
+/-- `del group[name]` does not touch the metadata of nodes that are neither the deleted node nor
+below it: their objects stay, with their bytes -/
+theorem opDelete_keeps {e : Env} (he : WFEnv e) {s : St} (hi : Inv e s) (p : Path) {k : Bool}
+    (hk : nodeKind s p = some k) {pp : Path} {r : SRef} {u : Nat} {tok : String}
+    (ho : ObjAt s.raw pp r u) (htok : get? s.raw pp = some (.ds (.data tok)))
+    (hnp : ¬ p <+: pp) (hnd : pp.dropLast ≠ metaBase p k) :
+    get? (opDelete p s).2.raw pp = some (.ds (.data tok)) := by
+  unfold opDelete guardPath
+  cases hint : isInternal p with
+  | true => simpa [hint] using htok
+  | false =>
+    simp only [Bool.false_eq_true, if_false, bind, M.bind, run_pure, run_getSt, hk, run_ofOpt_some]
+    obtain ⟨s1, hrun1, -, -, hmono, -, -, hsurv⟩ := destroyMeta_spec (delSpec_inv he) hi hint hk
+    have ho1 := hsurv pp r u ho hnp hnd
+    have htok1 : get? s1.raw pp = some (.ds (.data tok)) := by
+      rcases hmono pp ho.head with h | h
+      · obtain ⟨_, _, _, _, hg⟩ := ho1; exact absurd h hg
+      · rw [h]; exact htok
+    simp only [hrun1, run_liftRaw]
+    cases h : rawDel s1.raw p with
+    | error err => simpa using htok1
+    | ok t' =>
+      simp only
+      have hpp0 : pp ≠ [] := by rintro rfl; simp [get?] at htok
+      rw [rawDel_get? h pp hpp0, under_false_of_not_prefix hnp]
+      simpa using htok1
+
+/-- creating a node never changes an existing one -/
+theorem rawCreate_keeps {t t' : Tree} {p : Path} {n : Node} (h : rawCreate t p n = .ok t') {q : Path} {x : Node}
+    (hq : get? t q = some x) : get? t' q = some x := by
+  by_cases hq0 : q = []
+  · subst hq0; simpa using hq
+  · rw [rawCreate_get? h q hq0]
+    have : q ≠ p := by rintro rfl; rw [(rawCreate_inv h).2.1] at hq; cases hq
+    rw [if_neg this, hq]
+
+theorem opCreateGroup_keeps {s : St} (p : Path) {q : Path} {x : Node} (hq : get? s.raw q = some x) :
+    get? (opCreateGroup p s).2.raw q = some x := by
+  unfold opCreateGroup guardPath
+  cases hint : isInternal p with
+  | true => simpa [hint] using hq
+  | false =>
+    simp only [Bool.false_eq_true, if_false, bind, M.bind, run_pure, run_liftRaw]
+    cases h : rawCreate s.raw p .grp with
+    | error err => simpa using hq
+    | ok t' => exact rawCreate_keeps h hq
+
+theorem opCreateDataset_keeps {s : St} (p : Path) (tok : String) {q : Path} {x : Node}
+    (hq : get? s.raw q = some x) : get? (opCreateDataset p tok s).2.raw q = some x := by
+  unfold opCreateDataset guardPath
+  cases hint : isInternal p with
+  | true => simpa [hint] using hq
+  | false =>
+    simp only [Bool.false_eq_true, if_false, bind, M.bind, run_pure, run_liftRaw]
+    cases h : rawCreate s.raw p (.ds (.data tok)) with
+    | error err => simpa using hq
+    | ok t' => exact rawCreate_keeps h hq
 
 end MetadorModel.Container
